@@ -3,6 +3,6 @@ CONSTANTS
   Fin <- MCFin
   Sent = {1000000, 1000001}
   Ops = {"add", "radd", "sub", "rsub", "mul", "rmul", "div", "rdiv", "lt", "le", "eq", "ne", "gt", "ge", "neg", "abs", "sq"}
-  Kinds = {"number", "tensor", "matrix", "wt_same", "wt_none", "wt_other"}
+  Kinds = {"number", "tensor", "matrix", "wt_same", "wt_none", "wt_none_matrix", "wt_other"}
 INVARIANT MaskedStayMasked
 INVARIANT ReflectedIsExchanged
